@@ -354,6 +354,23 @@ def stepLine (_ : Unit) (line : String) : Unit × String :=
         pure <| showOpt do
           let m ← seqLoop k (BitVec.ofNat 64 v) bs (fill 72)
           pure (bytesHex (m.take (touched m)))
+    | "asml" :: w :: vs => do
+        let w ← w.toNat?
+        let vs ← vs.mapM parseHexNat?
+        if vs.length == 0 || vs.length > 4 then none
+        match w with
+        | 8 => some (bytesHex (asmlinkArgs8 (vs.map (BitVec.ofNat 8))))
+        | 16 => some (bytesHex (asmlinkArgs16 (vs.map (BitVec.ofNat 16))))
+        | 32 => some (bytesHex (asmlinkArgs32 (vs.map (BitVec.ofNat 32))))
+        | _ => none
+    | ["asmr", v] => do
+        let v ← parseHexNat? v
+        pure <| showOpt do
+          let a ← dprptr (BitVec.ofNat 64 v)
+          let b ← dprptrln (BitVec.ofNat 64 v)
+          pure (hexOfNat 2 asmlinkRet8.toNat ++ " " ++ hexOfNat 4 asmlinkRet16.toNat ++ " " ++ hexOfNat 8 asmlinkRet32.toNat ++ " "
+            ++ hexOfNat 16 asmlinkRet64.toNat ++ " " ++ bytesHex asmlinkTest ++ " " ++ bytesHex a ++ " " ++ bytesHex b ++ " "
+            ++ bytesHex debugPrintNull)
     | ["h2h", c] => do
         let c ← parseHexNat? c
         pure (hexOfNat 2 (hex2half (BitVec.ofNat 8 c)).toNat)
